@@ -19,18 +19,36 @@ Definition lowc (nm : names) (wrapped : bool) (f : Cond.formula) : cond :=
   | None => mkCond [COther "<condition refused by Model.Cond>"%string] []
   end.
 
+(* One pack: its user functions in source order (name, body, text the real compiler wrote for it, or
+   "<error>" when it refused the pack) and every private function the real compiler generated.
+   The numbering state (DataPack.private_function_count, private_functions) is threaded through the
+   functions in source order: a later function continues where the earlier one stopped. *)
 Record case := mkCase {
   k_nm : names;
-  k_prog_of : names -> stmts;              (* the program; its conditions are `lowc nm …` *)
-  k_real_body : string;                    (* text of the user function, or "<error>" *)
+  k_funs_of : list (string * (names -> stmts) * string);   (* conditions inside are `lowc nm …` *)
   k_real_fns : list (string * string)      (* every private function: resource name, text *)
 }.
+Definition k_funs (c : case) : list (string * stmts) :=
+  map (fun d => (fst (fst d), snd (fst d) (k_nm c))) (k_funs_of c).
+Definition k_real_users (c : case) : list string := map snd (k_funs_of c).
 
-Definition k_prog (c : case) : stmts := k_prog_of c (k_nm c).
+Fixpoint compile_funs (nm : names) (fl : list (string * stmts)) (a : alloc) : option (list (list cmd) * alloc) :=
+  match fl with
+  | [] => Some ([], a)
+  | (_, l) :: r =>
+    match compile_stmts nm l a with
+    | None => None
+    | Some (lines, a1) =>
+      match compile_funs nm r a1 with
+      | None => None
+      | Some (ls, a2) => Some (lines :: ls, a2)
+      end
+    end
+  end.
 
-Definition model_out (c : case) : option (string * list (string * string)) :=
-  match compile_body (k_nm c) (k_prog c) with
-  | Some (lines, fs) => Some (pr_cmds lines, map (fun d => (fst d, pr_cmds (snd d))) fs)
+Definition model_out (c : case) : option (list string * list (string * string)) :=
+  match compile_funs (k_nm c) (k_funs c) alloc0 with
+  | Some (bodies, a) => Some (map pr_cmds bodies, map (fun d => (fst d, pr_cmds (snd d))) (fns a))
   | None => None
   end.
 
@@ -44,19 +62,36 @@ Definition fns_eq (a b : list (string * string)) : bool :=
   forallb (fun d => match lookup_s b (fst d) with Some t => String.eqb t (snd d) | None => false end) a &&
   forallb (fun d => match lookup_s a (fst d) with Some t => String.eqb t (snd d) | None => false end) b.
 
+Fixpoint strs_eq (a b : list string) : bool :=
+  match a, b with
+  | [], [] => true
+  | x :: a', y :: b' => String.eqb x y && strs_eq a' b'
+  | _, _ => false
+  end.
+
 Definition case_ok (c : case) : bool :=
   match model_out c with
-  | Some (body, fs) => String.eqb body (k_real_body c) && fns_eq fs (k_real_fns c)
-  | None => String.eqb (k_real_body c) "<error>"
+  | Some (bodies, fs) => strs_eq bodies (k_real_users c) && fns_eq fs (k_real_fns c)
+  | None => forallb (String.eqb "<error>") (k_real_users c)
   end.
 Definition mismatches (l : list case) : list nat := bad_indices case_ok l.
+
+(* a single function is the special case of a pack with one function *)
+Lemma compile_funs_single : forall nm name l,
+  compile_funs nm [(name, l)] alloc0 =
+  match compile_body nm l with Some (lines, fs) => Some ([lines], mkAlloc (counts (snd (match compile_stmts nm l alloc0 with Some x => x | None => ([], alloc0) end))) fs) | None => None end.
+Proof.
+  intros nm name l. unfold compile_body. cbn [compile_funs].
+  destruct (compile_stmts nm l alloc0) as [[lines a]|]; [|reflexivity].
+  cbn. destruct a; reflexivity.
+Qed.
 
 (* for display when a case differs *)
 Definition nl : string := String (Ascii.ascii_of_nat 10) EmptyString.
 Definition model_text (c : case) : string :=
   match model_out c with
-  | Some (body, fs) =>
-    String.concat nl (("== caller" ++ nl ++ body)%string ::
+  | Some (bodies, fs) =>
+    String.concat nl (map (fun d => ("== function " ++ fst (fst d) ++ nl ++ snd d)%string) (combine (k_funs c) bodies) ++
                       map (fun d => ("== " ++ fst d ++ nl ++ snd d)%string) fs)
   | None => "<error>"
   end.
